@@ -425,6 +425,25 @@ def check_evaluate(ctx):
         bd_ = defs_.get(buf)
         if bd_ is None or not (isinstance(bd_, ast.Call) and kk(bd_.func) in ('np.zeros', 'np.empty', 'numpy.zeros', 'numpy.empty')):
             miss.append('the derivative buffer %s is not a fresh local array' % buf)
+    # the interface wrappers read `<double*> x.data` and ignore strides: the state they are given must be a fresh C-contiguous float64
+    # array made in this function (np.array copies; np.asarray would hand a caller's strided view straight through)
+    fresh = [n_ for n_ in f.body if isinstance(n_, ast.Assign) and len(n_.targets) == 1 and kk(n_.targets[0]) == st and isinstance(n_.value, ast.Call)]
+    ok_fresh = False
+    if len(fresh) == 1:
+        c_ = fresh[0].value
+        kw_ = {k_.arg: kk(k_.value) for k_ in c_.keywords}
+        dt_ok = kw_.get('dtype') in ("'float64'", 'np.float64', 'float', 'np.double', "'double'", "'float'", 'numpy.float64') or \
+            (len(c_.args) >= 2 and kk(c_.args[1]) in ("'float64'", 'np.float64', 'float', 'np.double'))
+        fn_ = kk(c_.func)
+        if fn_ in ('np.array', 'numpy.array') and dt_ok and kw_.get('copy', 'True') == 'True' and kw_.get('order', "'C'") in ("'C'", "'K'") and kk(c_.args[0]) == st:
+            ok_fresh = kw_.get('order', "'C'") == "'C'" or 'order' not in kw_
+        elif fn_ in ('np.ascontiguousarray', 'numpy.ascontiguousarray') and dt_ok and kk(c_.args[0]) == st:
+            ok_fresh = True
+        first_use = min([c2.lineno for c2 in rc_ + dc_] or [0])
+        ok_fresh = ok_fresh and fresh[0].lineno < first_use
+    if not ok_fresh:
+        miss.append('the state handed to the interface (which reads the raw buffer) is not a fresh C-contiguous float64 copy made here: %s'
+                    % [util.stmt_key(n_) for n_ in fresh])
     if len(sp_) != 1 or [kk(a_) for a_ in sp_[0].args] != [pa] or sp_[0].keywords:
         miss.append('the parameter set handed in does not reach self.M.set_params(%s): %s' % (pa, [src(c_) for c_ in sp_]))
     # on every path: the parameter set that was handed in is in the model before the rules run (rules read parameters), and the rules
